@@ -370,7 +370,7 @@ TargetOf(S, o) == IF o.op = "Clone" THEN o.h
                   ELSE IF DOMAIN S.doc.stamp = {} THEN "" ELSE S.doc.stamp[CHOOSE x \in DOMAIN S.doc.stamp : TRUE]
 Deviation(be, S, o, out, T) ==
     IF /\ be = "disjoint" /\ o.op \in {"Clone", "Import"} /\ out = "ok"
-       /\ (o.op = "Clone" => KeysOf(S, o.g) # {} /\ o.g # o.h) /\ (o.op = "Import" => S.doc.ok)
+       /\ (o.op = "Clone" => KeysOf(S, o.g) # {} /\ o.g # o.h) /\ (o.op = "Import" => S.doc.ok /\ o.entry \in {"string", "file"})   \* the direct entries do replace
        /\ KeysOf(S, TargetOf(S, o)) # {}
        /\ T.n = S.n /\ T.e = S.e
     THEN "DisjointImportSkipsExisting"
